@@ -7,6 +7,8 @@ Part C: the regex scan of `iter_splitlines` against `splitlinesAux`.
 Part D: `JSONLIterator` (`consume`).
 Part E: joining lines and splitting them again (`indent`).
 Part F: UTF-8 well-formedness of the lines of a well-formed content.
+Part G: cutting a content at a line break (`rel_seek`).
+Part H: UTF-8 decoding commutes with the split (text mode).
 -/
 namespace C19
 
@@ -1055,7 +1057,7 @@ theorem validUtf8G_cons (sp : Bool) (b : Nat) (rest : List Nat) :
         | _ => false
       else false := by
   rw [validUtf8G.eq_def]
-  rfl
+  all_goals rfl
 
 theorem validUtf8G_ascii_cons (sp : Bool) (x : Nat) (hx : x < 128) (b : List Nat) :
     validUtf8G sp (x :: b) = validUtf8G sp b := by
@@ -1304,5 +1306,348 @@ theorem firstBreak_spec (s : List Nat) (i : Nat) (h : firstBreak s = some i) :
       rcases hd with rfl | hd
       · simpa using hc
       · exact h2 d hd
+
+/-! ### Part H: decoding commutes with splitting (text mode) -/
+
+theorem decodeG_cons (sp : Bool) (b : Nat) (rest : List Nat) :
+    decodeG sp (b :: rest) =
+    if b < 128 then (decodeG sp rest).map (b :: ·)
+    else if (194 ≤ b && b ≤ 223) = true then
+      match rest with
+      | c1 :: r =>
+        if isCont c1 then (decodeG sp r).map (((b - 192) * 64 + (c1 - 128)) :: ·) else none
+      | _ => none
+    else if (224 ≤ b && b ≤ 239) = true then
+      match rest with
+      | c1 :: c2 :: r =>
+        if isCont c1 && isCont c2 && (b != 224 || 160 ≤ c1) && (b != 237 || sp || c1 ≤ 159) then
+          (decodeG sp r).map (((b - 224) * 4096 + (c1 - 128) * 64 + (c2 - 128)) :: ·)
+        else none
+      | _ => none
+    else if (240 ≤ b && b ≤ 244) = true then
+      match rest with
+      | c1 :: c2 :: c3 :: r =>
+        if isCont c1 && isCont c2 && isCont c3 && (b != 240 || 144 ≤ c1) && (b != 244 || c1 ≤ 143) then
+          (decodeG sp r).map (((b - 240) * 262144 + (c1 - 128) * 4096 + (c2 - 128) * 64 + (c3 - 128)) :: ·)
+        else none
+      | _ => none
+    else none := by
+  rw [decodeG.eq_def]
+  all_goals rfl
+
+/-- what decoding `a ++ x :: b` gives when `x` is an ASCII byte -/
+def glue (x : Nat) (a b : Option (List Nat)) : Option (List Nat) :=
+  match a, b with
+  | some a', some b' => some (a' ++ x :: b')
+  | _, _ => none
+
+theorem glue_map_left (x c : Nat) (a b : Option (List Nat)) :
+    (glue x a b).map (c :: ·) = glue x (a.map (c :: ·)) b := by
+  cases a <;> cases b <;> simp [glue]
+
+theorem decodeG_ascii_cons (sp : Bool) (x : Nat) (hx : x < 128) (b : List Nat) :
+    decodeG sp (x :: b) = (decodeG sp b).map (x :: ·) := by
+  rw [decodeG_cons]; simp [hx]
+
+theorem glue_none_left (x : Nat) (b : Option (List Nat)) : glue x none b = none := by
+  cases b <;> rfl
+
+/-- decoding commutes with cutting at an ASCII byte -/
+theorem decodeG_split (sp : Bool) (n : Nat) : ∀ a : List Nat, a.length ≤ n → ∀ (x : Nat) (b : List Nat),
+    x < 128 → decodeG sp (a ++ x :: b) = glue x (decodeG sp a) (decodeG sp b) := by
+  induction n with
+  | zero =>
+    intro a ha x b hx
+    have : a = [] := List.length_eq_zero_iff.mp (by omega)
+    subst this
+    rw [List.nil_append, decodeG_ascii_cons sp x hx]
+    cases decodeG sp b <;> simp [glue, decodeG]
+  | succ n ih =>
+    intro a ha x b hx
+    have hcx := isCont_ascii x hx
+    match a, ha with
+    | [], _ =>
+      rw [List.nil_append, decodeG_ascii_cons sp x hx]
+      cases decodeG sp b <;> simp [glue, decodeG]
+    | h0 :: t, ha =>
+      simp only [List.cons_append]
+      rw [decodeG_cons, decodeG_cons sp h0 t]
+      by_cases c1 : h0 < 128
+      · simp only [c1, if_true]
+        rw [ih t (by simp at ha; omega) x b hx, glue_map_left]
+      · simp only [c1, if_false]
+        by_cases c2 : (194 ≤ h0 && h0 ≤ 223) = true
+        · simp only [c2, if_true]
+          match t, ha with
+          | [], _ => simp [hcx, glue_none_left]
+          | d1 :: t', ha =>
+            simp only [List.cons_append]
+            by_cases k : isCont d1 = true
+            · simp only [k, if_true]
+              rw [ih t' (by simp at ha; omega) x b hx, glue_map_left]
+            · simp [k, glue_none_left]
+        · simp only [c2, Bool.false_eq_true, if_false]
+          by_cases c3 : (224 ≤ h0 && h0 ≤ 239) = true
+          · simp only [c3, if_true]
+            match t, ha with
+            | [], _ => cases b <;> simp [hcx, glue_none_left]
+            | [d1], _ => simp [hcx, glue_none_left]
+            | d1 :: d2 :: t', ha =>
+              simp only [List.cons_append]
+              split
+              · rw [ih t' (by simp at ha; omega) x b hx, glue_map_left]
+              · simp [glue_none_left]
+          · simp only [c3, Bool.false_eq_true, if_false]
+            by_cases c4 : (240 ≤ h0 && h0 ≤ 244) = true
+            · simp only [c4, if_true]
+              match t, ha with
+              | [], _ => rcases b with _ | ⟨_, _ | ⟨_, _⟩⟩ <;> simp [hcx, glue_none_left]
+              | [d1], _ => cases b <;> simp [hcx, glue_none_left]
+              | [d1, d2], _ => simp [hcx, glue_none_left]
+              | d1 :: d2 :: d3 :: t', ha =>
+                simp only [List.cons_append]
+                split
+                · rw [ih t' (by simp at ha; omega) x b hx, glue_map_left]
+                · simp [glue_none_left]
+            · simp [c4, glue_none_left]
+
+/-- one decoding step: the first code point is the first byte if that is ASCII, and otherwise is
+    ≥ 128 and uses up that byte and `k ≥ 1` more bytes, all ≥ 128 -/
+theorem decodeG_step (sp : Bool) (h : Nat) (r l' : List Nat) (hd : decodeG sp (h :: r) = some l') :
+    ∃ cp l'', l' = cp :: l'' ∧
+      ((h < 128 ∧ cp = h ∧ decodeG sp r = some l'') ∨
+       (128 ≤ h ∧ 128 ≤ cp ∧ ∃ k, 1 ≤ k ∧ k ≤ r.length ∧ decodeG sp (r.drop k) = some l'' ∧
+          ∀ c ∈ r.take k, 128 ≤ c)) := by
+  rw [decodeG_cons] at hd
+  by_cases c1 : h < 128
+  · simp only [c1, if_true, Option.map_eq_some_iff] at hd
+    obtain ⟨l'', h1, h2⟩ := hd
+    exact ⟨h, l'', h2.symm, Or.inl ⟨c1, rfl, h1⟩⟩
+  · simp only [c1, if_false] at hd
+    by_cases c2 : (194 ≤ h && h ≤ 223) = true
+    · simp only [c2, if_true] at hd
+      rcases r with _ | ⟨d1, r'⟩
+      · simp at hd
+      · simp only [] at hd
+        by_cases k : isCont d1 = true
+        · simp only [k, if_true, Option.map_eq_some_iff] at hd
+          obtain ⟨l'', h1, h2⟩ := hd
+          simp [isCont] at k c2
+          refine ⟨_, l'', h2.symm, Or.inr ⟨by omega, by omega, 1, by omega, by simp, by simpa using h1, ?_⟩⟩
+          intro c hc; simp at hc; omega
+        · simp [k] at hd
+    · simp only [c2, Bool.false_eq_true, if_false] at hd
+      by_cases c3 : (224 ≤ h && h ≤ 239) = true
+      · simp only [c3, if_true] at hd
+        rcases r with _ | ⟨d1, _ | ⟨d2, r'⟩⟩
+        · simp at hd
+        · simp at hd
+        · simp only [] at hd
+          by_cases k : (isCont d1 && isCont d2 && (h != 224 || decide (160 ≤ d1)) && (h != 237 || sp || decide (d1 ≤ 159))) = true
+          · simp only [k, if_true, Option.map_eq_some_iff] at hd
+            obtain ⟨l'', h1, h2⟩ := hd
+            simp [isCont] at k c3
+            refine ⟨_, l'', h2.symm, Or.inr ⟨by omega, ?_, 2, by omega, by simp, by simpa using h1, ?_⟩⟩
+            · rcases k.1.2 with k2 | k2 <;> omega
+            · intro c hc; simp at hc; rcases hc with rfl | rfl <;> omega
+          · simp [k] at hd
+      · simp only [c3, Bool.false_eq_true, if_false] at hd
+        by_cases c4 : (240 ≤ h && h ≤ 244) = true
+        · simp only [c4, if_true] at hd
+          rcases r with _ | ⟨d1, _ | ⟨d2, _ | ⟨d3, r'⟩⟩⟩
+          · simp at hd
+          · simp at hd
+          · simp at hd
+          · simp only [] at hd
+            by_cases k : (isCont d1 && isCont d2 && isCont d3 && (h != 240 || decide (144 ≤ d1)) && (h != 244 || decide (d1 ≤ 143))) = true
+            · simp only [k, if_true, Option.map_eq_some_iff] at hd
+              obtain ⟨l'', h1, h2⟩ := hd
+              simp [isCont] at k c4
+              refine ⟨_, l'', h2.symm, Or.inr ⟨by omega, ?_, 3, by omega, by simp, by simpa using h1, ?_⟩⟩
+              · rcases k.1.2 with k2 | k2 <;> omega
+              · intro c hc; simp at hc; rcases hc with rfl | rfl | rfl <;> omega
+            · simp [k] at hd
+        · simp [c4] at hd
+
+theorem decodeG_nil (sp : Bool) : decodeG sp [] = some [] := by simp [decodeG]
+
+theorem bytesBreak_lt (x : Nat) (h : bytesBreak x = true) : x < 128 := by
+  simp [bytesBreak] at h; omega
+
+theorem bytesBreak_ge (x : Nat) (h : 128 ≤ x) : bytesBreak x = false := by
+  simp [bytesBreak]; omega
+
+/-- an ASCII character at the head of the decoded text was the first byte -/
+theorem decodeG_head (sp : Bool) (b b' : List Nat) (hd : decodeG sp b = some b') (x : Nat) (hx : x < 128)
+    (hh : b'.head? = some x) : b.head? = some x := by
+  cases b with
+  | nil => rw [decodeG_nil] at hd; cases hd; simp at hh
+  | cons h r =>
+    obtain ⟨cp, l'', rfl, hc⟩ := decodeG_step sp h r b' hd
+    simp at hh
+    subst hh
+    rcases hc with ⟨_, h2, _⟩ | ⟨_, h2, _⟩
+    · simp [h2]
+    · omega
+
+theorem decodeG_ne_nil (sp : Bool) (b b' : List Nat) (hd : decodeG sp b = some b') (hb : b ≠ []) : b' ≠ [] := by
+  cases b with
+  | nil => exact absurd rfl hb
+  | cons h r =>
+    obtain ⟨cp, l'', rfl, _⟩ := decodeG_step sp h r b' hd
+    simp
+
+/-- decoding keeps a break-free byte string break-free, and the "ends with LF" test unchanged -/
+theorem decodeG_noBrk_last (sp : Bool) (n : Nat) : ∀ l : List Nat, l.length ≤ n → ∀ l', decodeG sp l = some l' →
+    (NoBrk bytesBreak l → NoBrk bytesBreak l') ∧ endsNL l' = endsNL l := by
+  induction n with
+  | zero =>
+    intro l hl l' hd
+    have : l = [] := List.length_eq_zero_iff.mp (by omega)
+    subst this
+    rw [decodeG_nil] at hd; cases hd
+    exact ⟨fun h => h, rfl⟩
+  | succ n ih =>
+    intro l hl l' hd
+    cases l with
+    | nil => rw [decodeG_nil] at hd; cases hd; exact ⟨fun h => h, rfl⟩
+    | cons h r =>
+      obtain ⟨cp, l'', rfl, hc⟩ := decodeG_step sp h r l' hd
+      rcases hc with ⟨h1, rfl, h3⟩ | ⟨h1, h2, k, k1, k2, h3, h4⟩
+      · obtain ⟨i1, i2⟩ := ih r (by simp at hl; omega) l'' h3
+        refine ⟨?_, ?_⟩
+        · intro hn d hd'
+          rcases List.mem_cons.mp hd' with rfl | hd'
+          · exact hn _ (by simp)
+          · exact i1 (fun e he => hn e (by simp [he])) d hd'
+        · by_cases hr : r = []
+          · subst hr
+            rw [decodeG_nil] at h3; cases h3; rfl
+          · have hl'' : l'' ≠ [] := decodeG_ne_nil sp r l'' h3 hr
+            unfold endsNL
+            rw [show cp :: l'' = [cp] ++ l'' from rfl, lastIs_append _ _ _ hl'',
+              show cp :: r = [cp] ++ r from rfl, lastIs_append _ _ _ hr]
+            exact i2
+      · have hlen : (r.drop k).length ≤ n := by simp at hl ⊢; omega
+        obtain ⟨i1, i2⟩ := ih (r.drop k) hlen l'' h3
+        refine ⟨?_, ?_⟩
+        · intro hn d hd'
+          rcases List.mem_cons.mp hd' with rfl | hd'
+          · exact bytesBreak_ge _ h2
+          · exact i1 (fun e he => hn e (by simp [List.mem_of_mem_drop he])) d hd'
+        · have hsplit : h :: r = (h :: r.take k) ++ r.drop k := by simp
+          by_cases hr : r.drop k = []
+          · rw [hr, decodeG_nil] at h3; cases h3
+            have hall : ∀ c ∈ h :: r, isNL c = false := by
+              intro c hc
+              have : 128 ≤ c := by
+                rcases List.mem_cons.mp hc with rfl | hc
+                · exact h1
+                · have : r = r.take k := by
+                    have := List.take_append_drop k r
+                    rw [hr, List.append_nil] at this; exact this.symm
+                  rw [this] at hc; exact h4 c hc
+              simp [isNL]; omega
+            unfold endsNL
+            rw [lastIs_false_of_all _ _ hall]
+            simp [lastIs, isNL]; omega
+          · have hl'' : l'' ≠ [] := decodeG_ne_nil sp _ l'' h3 hr
+            unfold endsNL
+            rw [show cp :: l'' = [cp] ++ l'' from rfl, lastIs_append _ _ _ hl'', hsplit,
+              lastIs_append _ _ _ hr]
+            exact i2
+
+/-- a break-free line followed by a break character is the first line of the split -/
+theorem aux_line_brk (brk : Nat → Bool) (x : Nat) (hx : brk x = true) (l R : List Nat) (hl : NoBrk brk l) :
+    splitlinesAux brk false (l ++ x :: R) = l :: splitlinesAux brk (x == 13) R := by
+  induction l with
+  | nil =>
+    simp only [List.nil_append]
+    rw [aux_cons]
+    simp [hx]
+  | cons c cs ih =>
+    have hc : brk c = false := hl c (by simp)
+    simp only [List.cons_append]
+    rw [aux_cons, ih (fun d hd => hl d (by simp [hd]))]
+    simp [hc, consHead]
+
+theorem glue_eq_some (x : Nat) (a b : Option (List Nat)) (t : List Nat) (h : glue x a b = some t) :
+    ∃ a' b', a = some a' ∧ b = some b' ∧ t = a' ++ x :: b' := by
+  cases a <;> cases b <;> simp [glue] at h
+  exact ⟨_, _, rfl, rfl, h.symm⟩
+
+/-- DECODING COMMUTES WITH SPLITTING: the lines of the bytes, each decoded, are the lines of the
+    decoded text -/
+theorem decode_lines (sp : Bool) (n : Nat) : ∀ s : List Nat, s.length ≤ n → ∀ (f : Bool) (t : List Nat),
+    decodeG sp s = some t →
+    (splitlinesAux bytesBreak f s).map (decodeG sp) = (splitlinesAux bytesBreak f t).map some := by
+  induction n with
+  | zero =>
+    intro s hs f t hd
+    have : s = [] := List.length_eq_zero_iff.mp (by omega)
+    subst this
+    rw [decodeG_nil] at hd; cases hd
+    simp [aux_nil]
+  | succ n ih =>
+    intro s hs f t hd
+    have key : (splitlinesAux bytesBreak false s).map (decodeG sp) =
+        (splitlinesAux bytesBreak false t).map some := by
+      cases hsp : splitlinesAux bytesBreak false s with
+      | nil =>
+        have hs0 : s = [] := by
+          by_cases hs0 : s = []
+          · exact hs0
+          · exact absurd hsp (aux_ne_nil _ s hs0)
+        subst hs0
+        rw [decodeG_nil] at hd; cases hd
+        simp [aux_nil]
+      | cons l0 rest =>
+        have hn0 := (aux_first bytesBreak s l0 rest hsp).1
+        rcases aux_first_decomp bytesBreak s l0 rest hsp with ⟨e1, e2⟩ | ⟨x, b2, e1, e2, e3⟩
+        · subst e1 e2
+          have hsne : s ≠ [] := by intro h; subst h; simp [aux_nil] at hsp
+          have htne := decodeG_ne_nil sp s t hd hsne
+          have hnt := (decodeG_noBrk_last sp s.length s (Nat.le_refl _) t hd).1 hn0
+          rw [aux_noBrk bytesBreak bytesBreak_10 t htne hnt false]
+          simp [hd]
+        · have hxlt := bytesBreak_lt x e2
+          rw [e1, decodeG_split sp l0.length l0 (Nat.le_refl _) x b2 hxlt] at hd
+          obtain ⟨l0', b2', d1, d2, rfl⟩ := glue_eq_some _ _ _ _ hd
+          have hnt := (decodeG_noBrk_last sp l0.length l0 (Nat.le_refl _) l0' d1).1 hn0
+          rw [aux_line_brk bytesBreak x e2 l0' b2' hnt, e3]
+          have hlen : b2.length ≤ n := by
+            have := congrArg List.length e1
+            simp at this
+            omega
+          simp [d1, ih b2 hlen (x == 13) b2' d2]
+    cases s with
+    | nil =>
+      rw [decodeG_nil] at hd; cases hd
+      simp [aux_nil]
+    | cons c cs =>
+      by_cases h1 : (f && c == 10) = true
+      · have hc : c = 10 := by simp at h1; exact h1.2
+        have hf : f = true := by simp at h1; exact h1.1
+        subst hc hf
+        rw [decodeG_ascii_cons sp 10 (by decide)] at hd
+        simp only [Option.map_eq_some_iff] at hd
+        obtain ⟨t', d1, rfl⟩ := hd
+        rw [aux_cons, aux_cons]
+        simp only [Bool.true_and, beq_self_eq_true, if_true]
+        exact ih cs (by simp at hs; omega) false t' d1
+      · have h1' : (f && c == 10) = false := by simpa using h1
+        have e1 : splitlinesAux bytesBreak f (c :: cs) = splitlinesAux bytesBreak false (c :: cs) := by
+          rw [aux_cons, aux_cons]; simp [h1']
+        have e2 : splitlinesAux bytesBreak f t = splitlinesAux bytesBreak false t := by
+          cases f with
+          | false => rfl
+          | true =>
+            apply aux_flag_irrel
+            intro hh
+            have := decodeG_head sp (c :: cs) t hd 10 (by decide) hh
+            simp at this
+            simp [this] at h1'
+        rw [e1, e2]
+        exact key
 
 end C19
